@@ -16,7 +16,7 @@ for d in sorted(os.listdir("seeded")):
         q = m["checked_with"]["quick"]; t = m["checked_with"].get("thorough")
         r = q if det == "quick" else (t or q)
         obl = ", ".join(o.split("/")[-1] for o in r.get("obligations", [])[:4])
-        needs = (m.get("needs_to_manifest") or "")[:160].replace("|", "/")
+        needs = re.sub(r"^(#+\s*)?What (is|it) needed( for it)?( to manifest)?\s*[-*:]*\s*", "", (m.get("needs_to_manifest") or ""), flags=re.I)[:170].replace("|", "/")
         rows.append(f"| {d} | {title} | {needs} | {'**missed**' if det == 'no' else det} ({r.get('wall_s','?')} s) | {obl} |")
     else:
         rows.append(f"| {d} | {title} | | not run | |")
